@@ -63,6 +63,10 @@ def main():
       caps = dict(njmax=max(need_efc - 1, 0))
     if rng.random() < 0.3 and sleep:
       caps["nvmax"] = int(rng.integers(1, mjm.nv + 1))
+    if jac and rng.random() < 0.6:
+      # sparse Jacobian storage: tiny, short and exact-fit numbers of non-zeros
+      need_nnz = int(mjd.efc_J_rownnz[:need_efc].sum()) if need_efc and len(mjd.efc_J_rownnz) >= need_efc else need_efc * mjm.nv
+      caps["njmax_nnz"] = int(rng.choice([0, 1, 2, max(need_nnz // 2, 0), max(need_nnz - 1, 0), need_nnz]))
     case = {"case": c, "xml": xml, "nworld": nworld, "caps": caps, "qpos": mjd.qpos.tolist(), "qvel": mjd.qvel.tolist(), "sleep": sleep}
     print(json.dumps({"begin": case}), flush=True)
     status = "ok"
